@@ -173,4 +173,78 @@ def flagsOfName (known : List String) (name : String) : List String :=
   let r := conversions.foldl step (ws0, [])
   (r.2 ++ wordFlags known r.1).eraseDups
 
+/-! ### pin bundle against the innermost duct  (blocks.py HexBlock.verifyBlockDims / getPinToDuctGap / getPinCenterFlatToFlat)
+
+Covers blocks whose duct components are `Hexagon`s (the `HoledHexagon` / non-hexagonal innermost duct branches return
+`None` = no check and are not generated).  Cold dimensions (verifyBlockDims asks for `cold=True`): the input numbers. -/
+
+/-- what `verifyBlockDims` looks at of one component of the block -/
+structure PComp where
+  name : String
+  /-- `hasFlags(Flags.DUCT)`, `Flags.CLAD`, `Flags.WIRE` (non-exact match) -/
+  duct : Bool
+  clad : Bool
+  wire : Bool
+  /-- Hexagon outer / inner flat-to-flat (ducts) -/
+  op : Rat
+  ip : Rat
+  /-- Circle / Helix `od` -/
+  od : Rat
+  mult : Nat
+  deriving Repr, DecidableEq
+
+/-- `Component.__lt__` between two Hexagons: bounding circle `2·op/√3` first, inner circle `2·ip/√3` on a tie -/
+def hexLt (a b : PComp) : Bool := if a.op = b.op then decide (a.ip < b.ip) else decide (a.op < b.op)
+
+/-- `sorted(self.getChildrenWithFlags(Flags.DUCT))[0]`: the FIRST minimal element (Python's sort is stable) -/
+def firstMin : List PComp → Option PComp
+  | [] => none
+  | c :: cs => match firstMin cs with
+    | none => some c
+    | some m => if hexLt m c then some m else some c
+
+/-- `Composite.getComponent(flag)`: `some none` when no child has the flag, `some (some c)` when exactly one has,
+`none` = ValueError when several have -/
+def getOne (p : PComp → Bool) (cs : List PComp) : Option (Option PComp) :=
+  match cs.filter p with
+  | [] => some none
+  | [c] => some (some c)
+  | _ => none
+
+/-- `hexagon.numRingsToHoldNumCells`: `ceil(0.5·(1 + sqrt(1 + 4·(n−1)//3)))`, 0 for no cells -/
+def numRings (numCells : Nat) : Nat :=
+  if numCells = 0 then 0 else
+  let s := 1 + (4 * (numCells - 1)) / 3
+  let r := Nat.sqrt s
+  if r * r = s then (r + 2) / 2 else (r + 3) / 2
+
+/-- `L < √3 · K`, decided exactly over the rationals -/
+def ltSqrt3 (L K : Rat) : Bool :=
+  if 0 ≤ K then decide (L < 0) || decide (L * L < 3 * K * K)
+  else decide (L < 0) && decide (3 * K * K < L * L)
+
+inductive DimVerdict
+  /-- several clads / wires: "too complicated to verify dimensions" -/
+  | skipped
+  /-- no wire, clad or duct: `getPinToDuctGap` is `None` (warning at most) -/
+  | nogap
+  | accept
+  /-- ValueError "Gap between pins and duct is … Make more room." -/
+  | refuse
+  deriving Repr, DecidableEq
+
+/-- the gap test on the innermost duct: `pinToDuctGap < -0.005` with
+`pinToDuctGap = (duct.ip − (√3·(nRings−1)·(clad.od + wire.od) + clad.od + 2·wire.od)) / 2` -/
+def gapTooSmall (d c w : PComp) : Bool :=
+  ltSqrt3 (d.ip - c.od - 2 * w.od + 1 / 100) (((numRings c.mult : Int) - 1 : Int) * (c.od + w.od))
+
+/-- `HexBlock.verifyBlockDims` on the block's components in the order they were added (blueprint order) -/
+def verifyBlockDims (cs : List PComp) : DimVerdict :=
+  match getOne (·.wire) cs, getOne (·.clad) cs with
+  | some w, some c =>
+    match firstMin (cs.filter (·.duct)), w, c with
+    | some d, some w, some c => if gapTooSmall d c w then .refuse else .accept
+    | _, _, _ => .nogap
+  | _, _ => .skipped
+
 end ArmiVerif.Blueprint
